@@ -266,8 +266,6 @@ def build_api(top_nodes, xml=False, detached=False):
             if len(n) > 4:
                 ns, prefix = n[4], n[5]
             t = soup.new_tag(name, namespace=ns, prefix=prefix)
-            if prefix:
-                t.name = prefix + ':' + name if ':' not in name else name
             t.attrs = dict(attrs)
             parent.append(t)
             for c in kids:
